@@ -73,6 +73,7 @@ def run(ck):
                                "operation": e["o"]["name"], "verdict": "ok"})
     ck.exhaustive = True
     trained_machines(ck, em, rng, 25 if quick else 300)
+    switched_off_components(ck, em, rng, 12 if quick else 120)
     for d in DEVS:
         gm.model_run(ck, "deviation:" + d, 2, 1, True, dev=[d], expect_violation=True, export=False, props=[])
 
@@ -133,3 +134,54 @@ def trained_machines(ck, em, rng, count):
                 break
         else:
             ck.sample({"mechanism": "M2", "trained": {"seed": seed, "trainer": trainer, "through": how}, "verdict": "ok"}, limit=3)
+
+
+def switched_off_components(ck, em, rng, count):
+    """FreshEquivalent with a weight of exactly zero (a component switched off: log-weight -inf, no responsibility),
+    assigned through the constructor or the setter, on fresh machines and on machines with a past."""
+    import copy
+    import pickle
+    import warnings
+    from ..gmm_machine_model import oracle_ll
+    for i in range(count):
+        seed = rng.randrange(10 ** 6)
+        r = np.random.RandomState(seed)
+        C, D = int(r.randint(2, 6)), int(r.randint(1, 4))
+        w = r.uniform(0.2, 1, size=C)
+        off = r.choice(C, size=int(r.randint(1, C)), replace=False)
+        w[off] = 0.0
+        w = w / w.sum()
+        mu, var = r.normal(size=(C, D)) * 2, r.uniform(0.4, 2, size=(C, D))
+        X = mu[r.randint(0, C, size=12)] + r.normal(size=(12, D))
+        with warnings.catch_warnings():
+            warnings.simplefilter("ignore")
+            if i % 3 == 0:
+                g = em.GMMMachine(C, weights=w.copy())
+                g.means, g.variances = mu.copy(), var.copy()
+            else:
+                g = em.GMMMachine(C)
+                g.means, g.variances = mu.copy(), var.copy()
+                if i % 3 == 2:          # a past: other weights, some scoring, an EM step
+                    g.weights = np.full(C, 1.0 / C)
+                    g.log_likelihood(X)
+                    g.update_weights = True
+                    from bob.learn.em.gmm import m_step
+                    m_step([g.acc_stats(X)], g)
+                    g.means, g.variances = mu.copy(), var.copy()
+                g.weights = w.copy()
+            ref = oracle_ll(w, mu, var, X)
+            ck.replayed += 1
+            ck.seen(["zero-weight", seed])
+            for label, obj in (("the machine", g), ("its deep copy", copy.deepcopy(g)), ("its pickle", pickle.loads(pickle.dumps(g)))):
+                got = np.asarray(obj.log_likelihood(X))
+                st = obj.acc_stats(X)
+                nn = np.asarray(st.n, dtype=float)
+                if not (np.allclose(got, ref, rtol=1e-9, atol=1e-9) and np.all(nn[off] == 0) and abs(nn.sum() - len(X)) < 1e-8):
+                    ck.violation("M2:GmmMachine:FreshEquivalent.zero_weight",
+                                 {"mechanism": "M2", "module": "GmmMachine", "seed": seed, "object": label, "weights": w.tolist(),
+                                  "assigned_through": ["constructor", "setter", "setter, after a past"][i % 3],
+                                  "detail": "log_likelihood %s, mixture density of the visible parameters %s; responsibilities %s"
+                                            % (got.tolist(), ref.tolist(), nn.tolist())})
+                    break
+            else:
+                ck.sample({"mechanism": "M2", "zero_weight": {"seed": seed, "weights": w.tolist()}, "verdict": "ok"}, limit=2)
